@@ -931,7 +931,7 @@ class Evaluator:
                     r2 = self.p.resolve_module_name(rb[1], node.attr)
                     if r2 is not None:
                         return canonical_global(self.p, rb[1], node.attr, r2)
-            return ("attr", b, node.attr)
+            return ("attr", b, self.p.rename_map.get(node.attr, node.attr) if b[0] in ("param", "global", "attr", "call") and node.attr in self.p.rename_map and self._is_method_name(node.attr) else node.attr)
         if isinstance(node, ast.Call):
             f = ev(node.func)
             args = []
@@ -1054,6 +1054,10 @@ class Evaluator:
 
     def _elts(self, elts, p, maybe):
         return [self.expr(e, p, maybe) for e in elts]
+
+    def _is_method_name(self, attr):
+        old = self.p.rename_map.get(attr)
+        return any(old in c.methods and getattr(c.methods[old], "renamed_from", None) == attr for c in self.p.classes.values()) or any(old in m.functions and getattr(m.functions[old], "renamed_from", None) == attr for m in self.p.modules.values())
 
     # -- package callees: canonical arguments and inlining ----------------
     def resolve_package_callee(self, f, p):
